@@ -79,6 +79,14 @@ def tdvp_case(ctx, idx, rng, long=False):
         nsteps = int(rng.choice([int(rng.integers(97, 141)), 101, 128, 129, 200, 201, 256, 257, 300]))
         numiter = int(rng.choice([2, 3, 5, 25]))
     dt = 1j * float(rng.choice([-1, 1])) * float(rng.uniform(0.01, 0.5))
+    degenerate = None
+    if not long and idx % 23 == 11:
+        # nothing to integrate: zero steps, or a zero time step -- the state must still come back normalised (and otherwise unchanged)
+        degenerate = str(rng.choice(['numsteps=0', 'dt=0', 'dt=0j']))
+        if degenerate == 'numsteps=0':
+            nsteps = 0
+        else:
+            dt = 0.0 if degenerate == 'dt=0' else 0j
     scale = float(rng.choice([1.0, 0.3, 7.0])) * np.exp(1j * float(rng.uniform(0, 2 * np.pi)) if rng.random() < 0.3 else 0)
     psi.A[0] = psi.A[0] * scale
     mH = refs.dense_operator(H.A)
@@ -89,7 +97,7 @@ def tdvp_case(ctx, idx, rng, long=False):
     D_in = list(psi.bond_dims)
     ends = (psi.qD[0].copy(), psi.qD[-1].copy())
     integ = 'twosite' if two else 'singlesite'
-    ctx.case((integ, label, f'L{L}', prof, f'numiter{numiter}', f'steps{min(nsteps, 2)}' if not long else f'steps>={nsteps // 100 * 100}'),
+    ctx.case((integ, label, f'L{L}', prof, f'numiter{numiter}', (f'steps{min(nsteps, 2)}' if not long else f'steps>={nsteps // 100 * 100}') + ('' if degenerate is None else '+' + degenerate)),
              sample={'integrator': integ, 'model': label, 'L': L, 'qD': psi.qD, 'dt': dt, 'numiter': numiter, 'steps': nsteps},
              info={'integrator': integ, 'model': label, 'L': L, 'qd': H.qd, 'qD': psi.qD, 'A': psi.A, 'H_A': H.A, 'H_qD': H.qD, 'dt': dt, 'numiter': numiter, 'steps': nsteps})
     detail = ctx.cur_info
@@ -138,7 +146,10 @@ def tdvp_case(ctx, idx, rng, long=False):
     # trace points (the first one sees the right-normalised input)
     tr = np.array(trace) if trace else np.zeros((0, 2))
     expected_points = nsteps * ((3 * (L - 2) + 1 + (L - 2)) if two else (2 * (L - 1) + 1)) if L >= 2 or not two else 0
-    ctx.ok('trace.points-observed', len(tr) >= 1, 'no trace point reached: the internal hook was not observed', detail)
+    if nsteps > 0:
+        ctx.ok('trace.points-observed', len(tr) >= 1, 'no trace point reached: the internal hook was not observed', detail)
+    if degenerate is not None:
+        ctx.close('nothing-to-integrate.state-is-normalised-input', float(np.linalg.norm(v_out - v_in / n_in)), 1e-10, f'{degenerate}: the state after the call is not the normalised input', detail)
     if first:
         ctx.close('trace.evolution-starts-from-normalised-input', first[0], 1e-10, 'state at the first internal step is not the normalised input', detail)
     if len(tr):
